@@ -374,6 +374,13 @@ func TestW_followingOfAttribute(t *testing.T) {
 	}
 }
 
+func TestW_keyCarriesNodeKind(t *testing.T) {
+	// an attribute a="a" and the text node "a" of the same element are two nodes
+	doc := `<r><e a="a">a</e></r>`
+	wantEval(t, doc, "", `count(//e/@a | //e/text())`, float64(2))
+	wantEval(t, doc, "", `count(//e/(@a, text()))`, float64(2))
+}
+
 func TestW_starIsNoNameChar(t *testing.T) {
 	// optional whitespace never changes the meaning: price*2 is price * 2
 	doc := `<r><book><price>10</price></book><book><price>40</price></book></r>`
